@@ -21,7 +21,7 @@ PROPERTY = "C20"
 LEVEL = "fault_enumeration"
 RULE = (
     "Faults applied to the two real .nzd files: truncation at every prefix (thorough) or at every field boundary "
-    "+/-1, every structural byte offset of 20 zones and 1500 seed-chosen prefixes (quick); k-byte faults (k<=4): "
+    "+/-1, every structural byte offset of 20 zones and 1500 seed-chosen prefixes (quick); every top-level field id replaced / deleted / duplicated; one count of every kind inflated to 2^28..2^31; k-byte faults (k<=4): "
     "substitution / insertion / deletion at positions drawn 50% from structural bytes (field ids, length varints, "
     "counts, type and flag bytes, transition markers, pool indices) with values biased to {0,1,2,0x7f,0x80,0xff,b+/-1}. "
     "After each fault: from_stream, list ids, for_id and DateTimeZoneCache[id] for the zones whose field was hit, "
@@ -471,7 +471,7 @@ def tasks(tier: str, seed: int) -> list[Task]:
                 out.append(Task("task_prefixes", {"which": which, "prefixes": pl[j::6]}, f"prefix-{which}-{j}"))
         parts = 8 if not thorough else 16
         for j in range(parts):
-            out.append(Task("task_structural_subs", {"which": which, "part": j + (0 if thorough else 0), "parts": parts * (1 if thorough else 10), "per_pos": 3 if thorough else 1}, f"subs-{which}-{j}"))
+            out.append(Task("task_structural_subs", {"which": which, "part": j + (0 if thorough else 0), "parts": parts * (1 if thorough else 20), "per_pos": 3 if thorough else 1}, f"subs-{which}-{j}"))
         for j in range(2):
             out.append(Task("task_field_ids", {"which": which, "part": j, "parts": 2}, f"field-ids-{which}-{j}"))
         for j in range(4):
